@@ -101,18 +101,19 @@ type memStream struct {
 	reqPipe *bufPipe
 	resPipe *bufPipe
 
-	mu          sync.Mutex
-	header      http.Header // live handler header map
-	wroteHeader bool
-	sentHeader  bool
-	status      int
-	snapshot    http.Header
-	pending     []byte
-	ready       chan struct{}
-	readyOnce   sync.Once
-	trailer     http.Header // the map handed to the client as Response.Trailer
-	aborted     error
-	handlerDone bool
+	mu           sync.Mutex
+	header       http.Header // live handler header map
+	wroteHeader  bool
+	sentHeader   bool
+	status       int
+	snapshot     http.Header
+	pending      []byte
+	ready        chan struct{}
+	readyOnce    sync.Once
+	trailer      http.Header // the map handed to the client as Response.Trailer
+	finalTrailer http.Header // set by finish(); published at EOF
+	aborted      error
+	handlerDone  bool
 }
 
 // Do implements connect.HTTPClient.
@@ -355,9 +356,7 @@ func (st *memStream) finish() {
 			tr[k] = append(tr[k], v...)
 		}
 	}
-	for k, v := range tr {
-		st.trailer[k] = v
-	}
+	st.finalTrailer = tr // copied into Response.Trailer by the reading goroutine when it reaches EOF
 	st.ex.mu.Lock()
 	st.ex.RespTrailer = tr.Clone()
 	st.ex.mu.Unlock()
@@ -442,6 +441,14 @@ type clientBody struct {
 func (b *clientBody) Read(p []byte) (int, error) {
 	n, err := b.st.resPipe.Read(p)
 	if err == io.EOF {
+		// like net/http's transports: trailers are filled in by the goroutine
+		// that reads the body, at EOF (never concurrently with a reader)
+		b.st.mu.Lock()
+		for k, v := range b.st.finalTrailer {
+			b.st.trailer[k] = v
+		}
+		b.st.finalTrailer = nil
+		b.st.mu.Unlock()
 		b.st.ex.mu.Lock()
 		b.st.ex.bodyEOF = true
 		b.st.ex.mu.Unlock()
